@@ -177,6 +177,17 @@ func gen(tier string) []proto.Item {
 					items = append(items, proto.Item{Scn: s, Class: fmt.Sprintf("%s/%s/unrelated-burst-of-%d-before-the-reply", v, rtag, n)})
 				}
 			}
+			// a send delay LONGER than the poll interval (300 ms): the budget is timeout + one delay per probe, and a reply that
+			// arrives in its last delay-sized slice, more than a poll interval before the deadline, is still read
+			if vi.Parallel && r.first == 1 && r.last == 4 {
+				for _, n := range []int{1, 3} {
+					s := proto.Scn{Variant: v, First: 1, Last: n, Dest: 0, IPIDBase: 100, EchoBase: 11, TimeoutMs: 300, DelayMs: 300, Bound: 1}
+					budget := 300000 + n*300000
+					sentAt := (n - 1) * 300000
+					s.Hops = map[int]proto.HopSpec{n: {DelayUs: budget - sentAt - 150000}}
+					items = append(items, proto.Item{Scn: s, Class: fmt.Sprintf("%s/r1-%d/long-send-delay/late-inside-budget", v, n)})
+				}
+			}
 			// replies that arrive late but inside the budget (one poll interval before the deadline)
 			if vi.Parallel {
 				s := base(v, r, dest)
